@@ -6,7 +6,10 @@ CONSTANTS MaxTags
 GKinds == {"meminfo", "cmdline", "efi_bs", "efi_mmap", "load_base_addr", "module"}
 RECURSIVE SeqsUpTo(_, _)
 SeqsUpTo(S, n) == IF n = 0 THEN {<<>>} ELSE {<<>>} \cup { <<x>> \o r : x \in S, r \in SeqsUpTo(S, n - 1) }
+\* long walks: a getter must still find the first match behind many other tags (also duplicates)
+LongSeq(n, lastKind) == [i \in 1..n |-> IF i % 2 = 0 THEN "cmdline" ELSE "module"] \o <<lastKind>>
 GettersParams == { [ks |-> ks] : ks \in SeqsUpTo(GKinds, MaxTags) }
+                 \cup { [ks |-> LongSeq(n, k)] : n \in {11, 12, 22, 23, 40}, k \in {"meminfo", "load_base_addr", "efi_mmap"} }
 \* the i-th tag of a sequence uses fill i % 2 so that duplicates differ
 GettersCase(p) ==
   [mem |-> InfoImage([i \in 1..Len(p.ks) |-> ConformantTag(p.ks[i], i % 2)]),
